@@ -7,7 +7,7 @@ import Nervus.Driver.Capi
 import Nervus.Driver.CapiSched
 import Nervus.Driver.Capix
 import Nervus.Driver.Codec
-import Nervus.Driver.HostCrash
+import Nervus.Driver.Crash
 import Nervus.Driver.Cypher
 import Nervus.Driver.Cypher14
 import Nervus.Driver.CypherUpdate
@@ -15,6 +15,7 @@ import Nervus.Driver.Engine
 import Nervus.Driver.ExtId
 import Nervus.Driver.Handles
 import Nervus.Driver.Hnsw
+import Nervus.Driver.HostCrash
 import Nervus.Driver.Index
 import Nervus.Driver.Locks
 import Nervus.Driver.OKey
@@ -62,15 +63,8 @@ def streams : List (String × Stream) := ([] : List (String × Stream))
   |>.cons ("capiryw", CapiStream.streamRyw)
   |>.cons ("capix", CapixStream.stream)
   |>.cons ("hostcrash", HostCrashStream.stream)
-import Nervus.Driver.Crash
-open Nervus.Driver
-
-/-- stream registry: one line per stream (kept one-per-line so that merges are unions) -/
-def streams : List (String × Stream) := [
-  ("okey", OKeyStream.stream),
-  ("crash", CrashStream.stream),
-  ("fault", CrashStream.faultStream)
-]
+  |>.cons ("crash", CrashStream.stream)
+  |>.cons ("fault", CrashStream.faultStream)
 
 def main (args : List String) : IO UInt32 := do
   match args with
